@@ -276,7 +276,7 @@ def gen_histories(ctx, mode, num, depth):
     with VERIF_SEED ("sim") or every history up to `depth` by BFS ("bfs")."""
     import re
     consts = ctx.consts({"MODE": mode, "DEPTH": str(depth), "NS": "7"})
-    key = vlib.sha(vlib.spec_hash(), mode, num, depth, ctx.seed if mode == "sim" else 0)
+    key = vlib.sha(vlib.spec_hash(), mode, num, depth, ctx.seed if mode.startswith("sim") else 0)
     d = vlib.ensure(os.path.join(vlib.CACHE, "gen", "MC_Life-%s-%s" % (mode, key)))
     outp, statp = os.path.join(d, "hist.ndjson"), os.path.join(d, "stats.json")
     if os.path.exists(statp):
@@ -290,7 +290,7 @@ def gen_histories(ctx, mode, num, depth):
     raw = os.path.join(d, "raw.csv")
     if os.path.exists(raw):
         os.remove(raw)
-    if mode == "sim":
+    if mode.startswith("sim"):
         workers = 8
         extra = ["-simulate", "num=%d" % ((num + workers - 1) // workers), "-depth", str(depth + 8), "-seed", str(ctx.seed)]
     else:
@@ -328,6 +328,8 @@ def lifecycle(ctx, view, variants=("exact", "exact_checks"), bfs=True, nsim=None
     import subprocess
     quick = ctx.tier == "quick"
     sets = [gen_histories(ctx, "sim", nsim or (320 if quick else 5000), 12 if quick else 20)]
+    # the same state machine with the long grid L16 as the shared grid (size-dependent paths inside histories)
+    sets.append(gen_histories(ctx, "simbig", (nsim or 320) // 4 if quick else 1000, 12 if quick else 16))
     if bfs:
         sets.append(gen_histories(ctx, "bfs", 0, 2))
     all_hists = []
@@ -340,7 +342,7 @@ def lifecycle(ctx, view, variants=("exact", "exact_checks"), bfs=True, nsim=None
         raise MachineryFailure("no histories generated")
     for variant in variants:
         # the self-check build (BSPLINE_ADD_TEST_CHECKS) replays the simulated histories only
-        hists = all_hists[0] + (all_hists[1] if bfs and (variant == "exact" or not quick) else [])
+        hists = all_hists[0] + all_hists[1] + (all_hists[2] if bfs and (variant == "exact" or not quick) else [])
         binp = vlib.build(variant, ["vh_life.cpp"], name="vh_life")
         wd = vlib.ensure(os.path.join(ctx.work, "life-" + variant))
         nsh = min(vlib.NCPU, max(1, len(hists) // 20))
@@ -709,7 +711,7 @@ def c18(ctx):
     fams.append(("Gen", cp, lines))
     cp, st = family_gen(ctx, "Ops")
     def opsel(c):
-        if c["tag"] == "foreign":
+        if c["tag"] in ("foreign", "hi"):
             return False
         if c["op"] == "OpApply":
             return c["ast"]["k"] in ("Spl", "Prod", "Sum", "X", "Dx") and pick(c, 6 if quick else 12)
@@ -931,7 +933,8 @@ def main():
         log("MACHINERY FAILURE: %s" % e)
         return 2
     finally:
-        shutil.rmtree(ctx.work, ignore_errors=True)
+        if os.environ.get("VERIF_KEEP_WORK") != "1":
+            shutil.rmtree(ctx.work, ignore_errors=True)
 
 
 def replay(ctx, path):
